@@ -10,7 +10,14 @@ import lib
 srcs = lib.translate()
 print("translator: %d symbols" % len(srcs))
 lib.coq_project()
-rc, o = lib.sh(["make", "-j%d" % lib.NCPU], cwd=lib.COQ, timeout=7000)
+import codec
+codec.write_fam_env()
+lib.coq_project()
+# -k: build everything that builds; a file that does not compile is reported by the check that depends on it
+# (each check rebuilds its own targets and turns a failure into a proof-broken verdict)
+rc, o = lib.sh(["make", "-j%d" % lib.NCPU, "-k"], cwd=lib.COQ, timeout=7000)
 print(o[-3000:])
-sys.exit(rc)
+if rc != 0:
+    print("setup: some Coq files did not build (see above); the checks depending on them will report it")
+sys.exit(0)
 PY
